@@ -223,7 +223,7 @@ SPECS["C01"] = {"run": prog_check(["shape", "scc", "shape-n3@thorough", "scc-n3@
                 "assumptions": P_ASSUME + ["programs from the families F-shape and F-scc, domain {0,1}"]}
 SCHED = os.path.join(ENGINES, "sched")
 TARGET_SCHED = os.path.join(ROOT, "build", "target-sched")
-PAR_HARNESSES = ["H1-diamond-tc", "H2-two-rules-one-head", "H3-lattice-min", "H4-lattice-then-aggregate", "H5-negation", "H6-eqrel", "H7-three-way-join", "H8-mutual-lattices", "H10-lattice-third-clause", "H11-eqrel-merge-vs-link"]
+PAR_HARNESSES = ["H1-diamond-tc", "H2-two-rules-one-head", "H3-lattice-min", "H4-lattice-then-aggregate", "H5-negation", "H6-eqrel", "H7-three-way-join", "H8-mutual-lattices", "H10-lattice-third-clause", "H11-eqrel-merge-vs-link", "H12-lattice-keys-sharing-a-shard"]
 
 
 def build_sched():
